@@ -25,11 +25,13 @@ import (
 type wOpts struct {
 	grpc    bool // the plugin serves gRPC (else net/rpc)
 	mux     bool // the host requests gRPC broker multiplexing
-	tls     int  // 0 none, 1 AutoMTLS, 2 static TLS on both sides, 3 host only (mismatch), 4 plugin only (mismatch)
+	tls     int  // 0 none, 1 AutoMTLS, 2 static TLS on both sides, 3 host only (mismatch), 4 plugin only (mismatch), 5 host AutoMTLS and a plugin that ignores it (mismatch)
+	certMangle int // see wCertMangle
 	cmd     bool // launch through exec.Cmd and the real CmdRunner (else RunnerFunc)
 	allowed int  // 0 default (nil -> net/rpc only), 1 both, 2 gRPC only
 	xlate   bool // custom runner with host and plugin in different file-system namespaces
 	noStart int  // 1: fork/exec fails (cmd) or the custom runner's Start fails; 2: RunnerFunc itself returns an error
+	extraLines int // scripted plugins (oldLine > 0): further stdout lines written right after the handshake line
 	oldLine int  // 0: real Serve; 1: a plugin that prints a six-field gRPC line (no multiplexing support) and waits
 	delay   int64
 }
@@ -82,6 +84,9 @@ func wSetup(o wOpts) *wWorld {
 		}
 		main = func() {
 			mPrintf("%s\n", line)
+			for i := 0; i < o.extraLines; i++ { // a plugin that goes on writing to its stdout after the handshake line
+				mPrintf("%s\n", "more output")
+			}
 			<-wNever
 		}
 	}
@@ -92,7 +97,11 @@ func wSetup(o wOpts) *wWorld {
 		Logger:              w.hostLog,
 		StartTimeout:        60 * time.Second,
 		GRPCBrokerMultiplex: o.mux,
-		AutoMTLS:            o.tls == 1,
+		AutoMTLS:            o.tls == 1 || o.tls == 5,
+	}
+	wCertMangle = o.certMangle
+	if o.tls == 5 {
+		wCertMangle = 2
 	}
 	switch o.allowed {
 	case 1:
@@ -112,7 +121,9 @@ func wSetup(o wOpts) *wWorld {
 			for _, kv := range cmd.Env {
 				k, v, _ := wCut(kv)
 				if vIsConcrete(k) {
-					vSetenvProc(w.p.id, k, v)
+					if v, keep := wChildEnv(k, v); keep {
+						vSetenvProc(w.p.id, k, v)
+					}
 				}
 			}
 			if o.noStart == 2 {
@@ -141,7 +152,7 @@ func harnessC14matrix() {
 	var o wOpts
 	o.grpc = vChoice(2) == 1
 	o.allowed = vChoice(3)
-	o.tls = vChoice(5)
+	o.tls = vChoice(6)
 	o.cmd = vChoice(2) == 1
 	if o.grpc {
 		o.mux = vChoice(2) == 1
@@ -170,6 +181,9 @@ func harnessC14matrix() {
 	raw, err := cp.Dispense("test")
 	if !o.tlsCompatible() {
 		vCover("tls-mismatch")
+		if o.tls == 5 {
+			vCover("automtls-ignored-by-plugin")
+		}
 		if err == nil {
 			_, err = raw.(wStub).Whoami()
 		}
@@ -338,6 +352,61 @@ func harnessC12() {
 	tag, err = raw.(wStub).Whoami()
 	vAssert(err == nil && tag == 1, "C12: the legitimate connection keeps working")
 	c.Kill()
+	vDone()
+}
+
+// a launcher that damages the client certificate on its way to the plugin (set, but no longer a parsable
+// certificate): the plugin must fail closed - nobody, and in particular no plaintext peer, is served
+func harnessC12damagedCert() {
+	var o wOpts
+	o.grpc = vChoice(2) == 1
+	o.tls = 1
+	o.certMangle = 1
+	o.allowed = 1
+	o.cmd = vChoice(2) == 1
+	w := wSetup(o)
+	c := w.c
+	r := wTimed(func() error {
+		cp, err := c.Client()
+		if err == nil {
+			var raw interface{}
+			raw, err = cp.Dispense("test")
+			if err == nil {
+				_, err = raw.(wStub).Whoami()
+			}
+		}
+		return err
+	})
+	vAssert(!r.panicked, "C12: a damaged client certificate does not make the host panic")
+	if r.err != nil {
+		vCover("host-refused-too")
+	}
+	servedBefore := w.plugPl.made
+	n := 0
+	for _, l := range wListeners {
+		if l.closed || l.owner != w.p.id {
+			continue
+		}
+		n++
+		for class := 0; class < 3; class++ {
+			vSetProc(2)
+			var got bool
+			if o.grpc {
+				got = wIntrudeGRPC(l, class)
+			} else {
+				got = wIntrudeRPC(l, class)
+			}
+			vSetProc(0)
+			vAssert(!got, "C12: a plugin given a damaged client certificate serves nobody (no plaintext or unauthenticated peer)")
+		}
+	}
+	if !w.p.isDead {
+		vAssert(n >= 1, "C12: there is a listener to attack")
+		vCover("attacked")
+	}
+	vAssert(w.plugPl.made == servedBefore, "C12: nothing was dispensed to an intruder")
+	c.Kill()
+	vCover("damaged-cert-done")
 	vDone()
 }
 
@@ -928,6 +997,14 @@ func harnessC18world() {
 		vAssert(<-done == 300, "C06: a brokered net/rpc callback from the plugin reaches the object the host serves on that ID")
 	}
 
+	if vChoice(2) == 1 {
+		// the common pattern `defer client.Kill(); defer proto.Close()`: the protocol client is closed first, the
+		// plugin exits on its own and the exit is recorded, and only then comes Kill
+		vCover("closed-before-kill")
+		cp.Close()
+		vSleepUntil(vNow() + 3*sec)
+		vAssert(p.isDead && c.Exited(), "C04: closing the protocol client makes the plugin exit")
+	}
 	c.Kill()
 	vAssert(p.isDead && p.killed == 0, "C18: the plugin exits gracefully")
 	vSleepUntil(vNow() + 6*sec)
@@ -1058,8 +1135,18 @@ func harnessC13start() {
 	o.cmd = vChoice(2) == 1
 	d := vNondetBytes("d", 2)
 	c := vNondetBytes("c", 3)
+	if o.cmd && vChoice(2) == 1 {
+		// the command path runs through a symbolic link followed by "..": the file the kernel executes (digest d) is not
+		// the file the lexically cleaned path names - and that one is a decoy whose digest IS the configured checksum
+		vCover("path-through-symlink")
+		wCmdPath = "/d/link/../wplugin"
+		wRegular[wCmdPath] = d
+		wRegular["/d/wplugin"] = c
+	} else {
+		wRegular["/bin/wplugin"] = d
+	}
 	w := wSetup(o)
-	w.c.config.SecureConfig = &SecureConfig{Checksum: c, Hash: &wHash{sum: d}}
+	w.c.config.SecureConfig = &SecureConfig{Checksum: c, Hash: &wHash{}}
 	_, err := w.c.Start()
 	equal := len(c) == len(d)
 	if equal {
@@ -1098,9 +1185,19 @@ func harnessC05killAfter() {
 	o.cmd = vChoice(2) == 1
 	o.oldLine = 1 + vChoice(5) // 1..4 scripted lines; 5: garbage
 	o.mux = o.oldLine == 1     // a six-field gRPC line with multiplexing requested: refused
+	o.extraLines = 2 * vChoice(2)
+	if o.extraLines > 0 {
+		vCover("more-stdout-after-the-line")
+	}
 	w := wSetup(o)
 	if o.oldLine == 5 {
-		w.p.main = func() { mPrintf("%s\n", "this is not a handshake"); <-wNever }
+		w.p.main = func() {
+			mPrintf("%s\n", "this is not a handshake")
+			for i := 0; i < o.extraLines; i++ {
+				mPrintf("%s\n", "more output")
+			}
+			<-wNever
+		}
 	}
 	dirsBefore := len(wFiles)
 	_, err := w.c.Start()
